@@ -1,4 +1,5 @@
 import Pocket.Lemmas.StoreRead
+import Pocket.Lemmas.Vanish
 /-
 C18 — explicit removal and vanish remove exactly their targets.
 -/
@@ -59,6 +60,18 @@ theorem vanish_only_removes (s : Store) (pk : Bytes) :
     (vanish s pk).db.delAddrs = s.db.delAddrs ∧ (vanish s pk).db.extra = s.db.extra ∧
     (vanish s pk).log = s.log :=
   ⟨vanish_sublist s pk, rfl, rfl, rfl, rfl⟩
+
+/-- **vanish removes exactly its targets**: in every reachable state (fewer than 2^32−1 events,
+`u64` timestamps), after `vanish(pk)` an event is retrievable iff it was retrievable, was not
+authored by `pk`, and is not a gift wrap (kind 1059) one of whose `p` tags has `pk` (lower-case
+hex) as its value -/
+theorem vanish_exact (ops : List Op) (pk : Bytes) (x : SEv)
+    (hlen : (run {} ops).db.live.length < U32MAX)
+    (ht : ∀ y ∈ (run {} ops).db.live, y.e.createdAt ≤ U64MAX) :
+    x ∈ (vanish (run {} ops) pk).db.live ↔
+      (x ∈ (run {} ops).db.live ∧ x.e.pubkey ≠ pk ∧
+        ¬ (x.e.kind = 1059 ∧ tagsMatch x.e.tags KEY_P (hexOf pk) = true)) :=
+  Pocket.vanish_exact _ (Inv_run {} ops Inv_init).liveIds (C09.one_per_address ops) hlen ht pk x
 
 /-- storing an ephemeral event succeeds (unless it is a duplicate/deleted id, which it cannot be:
 it is never indexed) and leaves the set of retrievable events unchanged -/
